@@ -258,6 +258,19 @@ pub fn exec(sc: &Sc) -> RunResult {
             Op::Clean { .. } => {}
         }
     }
+    // a hash commits to its parent: the same id with two different parents is not a history
+    {
+        let mut seen: BTreeMap<u64, (u64, u64, u64)> = BTreeMap::new();
+        for op in &sc.ops {
+            if let Op::Insert { id, parent, epoch, number } = op {
+                let v = (*parent, *epoch, *number);
+                if *seen.entry(*id).or_insert(v) != v || id == parent {
+                    cx.res.harness_error = Some(format!("inconsistent scenario: block {id} is given two different parents/epochs/numbers"));
+                    return cx.finish();
+                }
+            }
+        }
+    }
     let mut multi_level = false;
 
     // decode a released list into ids, checking item identity and "each once"
